@@ -4,6 +4,8 @@ package snaps
 
 import (
 	"fmt"
+	"os"
+	"strconv"
 
 	"github.com/gkampitakis/go-snaps/internal/vxrt"
 )
@@ -46,3 +48,48 @@ func newT(name string) *mockT { return &mockT{name: name} }
 
 var _ = fmt.Sprint
 var _ = vxrt.Assert
+
+// noCRAtEOL: no line of s ends in a carriage return (README "Known
+// limitations": the line reader strips it). Built without branching.
+func noCRAtEOL(s string) bool {
+	ok := true
+	for i := 0; i < len(s); i++ {
+		last := i+1 == len(s)
+		var nextNL bool
+		if !last {
+			nextNL = s[i+1] == '\n'
+		}
+		ok = vxrt.And(ok, vxrt.Not(vxrt.And(s[i] == '\r', vxrt.Or(last, nextNL))))
+	}
+	return ok
+}
+
+// plainText: s contains none of the bytes kr/pretty's tabwriter rewrites, so
+// that the formatted text of the string value s is s itself.
+func plainText(s string) bool {
+	ok := true
+	for i := 0; i < len(s); i++ {
+		c := s[i]
+		ok = vxrt.And(ok, vxrt.Not(vxrt.Or(vxrt.Or(c == '\t', c == '\v'), vxrt.Or(c == '\f', c == 0xff))))
+	}
+	return ok
+}
+
+// dumpDir renders the whole directory (names and contents, one level of
+// sub-directories) as one string, for byte-for-byte comparison.
+func dumpDir(dir string) string {
+	out := ""
+	ents, err := os.ReadDir(dir)
+	if err != nil {
+		return "<no dir>"
+	}
+	for _, e := range ents {
+		if e.IsDir() {
+			out += "D:" + e.Name() + "{" + dumpDir(dir+"/"+e.Name()) + "}"
+			continue
+		}
+		b, _ := os.ReadFile(dir + "/" + e.Name())
+		out += "F:" + e.Name() + "=" + strconv.Itoa(len(b)) + ":" + string(b) + ";"
+	}
+	return out
+}
